@@ -9,7 +9,7 @@ import z3
 
 from contracts import groupings as cg
 from vt import loopvc, solve
-from vt.loopvc import SArr, SCounter, SDict, SList, Unsupported
+from vt.loopvc import SArr, SCounter, SDict, SDictList, SList, Unsupported
 
 Int = z3.IntSort()
 Bool = z3.BoolSort()
@@ -22,6 +22,7 @@ WHERE = {
     "bg_id_numpy": "_gettsim.groupings",
     "wthh_id_numpy": "_gettsim.groupings",
     "sum_by_p_id": "_gettsim.aggregation_numpy",
+    "fg_id_numpy": "_gettsim.groupings",
 }
 
 
@@ -37,6 +38,13 @@ def init_state(vc, pre_stmts, inp, gh, contract):
     """interpret the initialisation statements before the loop"""
     st = dict(inp)
     hyps = []
+    # dicts whose values are lists: recognised by how the function uses them (`d[k] = []`, `d[k].append(..)`)
+    dictlists = set()
+    for n in ast.walk(vc.node):
+        if isinstance(n, ast.Assign) and len(n.targets) == 1 and isinstance(n.targets[0], ast.Subscript) and isinstance(n.targets[0].value, ast.Name) and isinstance(n.value, ast.List):
+            dictlists.add(n.targets[0].value.id)
+        if isinstance(n, ast.Call) and isinstance(n.func, ast.Attribute) and n.func.attr == "append" and isinstance(n.func.value, ast.Subscript) and isinstance(n.func.value.value, ast.Name):
+            dictlists.add(n.func.value.value.id)
     for s in pre_stmts:
         if isinstance(s, ast.Expr) and isinstance(s.value, ast.Call) and getattr(s.value.func, "id", "").startswith("fail_if_dtype"):
             continue  # dtype guards: raise TypeError iff the dtype class is wrong (dtype precondition)
@@ -46,6 +54,9 @@ def init_state(vc, pre_stmts, inp, gh, contract):
         if isinstance(s, ast.Assign) and len(s.targets) == 1 and isinstance(s.targets[0], ast.Name):
             name = s.targets[0].id
             v = s.value
+            if isinstance(v, ast.Dict) and not v.keys and name in dictlists:
+                st[name] = SDictList(z3.K(Int, z3.BoolVal(False)), z3.K(Int, z3.K(Int, z3.IntVal(0))), z3.K(Int, z3.IntVal(0)))
+                continue
             if isinstance(v, ast.Dict) and not v.keys:
                 st[name] = SDict(z3.K(Int, z3.BoolVal(False)), z3.K(Int, z3.IntVal(0)))
                 continue
@@ -87,6 +98,8 @@ def modified_names(loop):
                     t = t.value
                 if isinstance(t, ast.Name):
                     mod.add(t.id)
+        if isinstance(n, ast.Call) and isinstance(n.func, ast.Attribute) and n.func.attr == "append" and isinstance(n.func.value, ast.Subscript) and isinstance(n.func.value.value, ast.Name):
+            mod.add(n.func.value.value.id)
         if isinstance(n, ast.Call) and isinstance(n.func, ast.Attribute) and isinstance(n.func.value, ast.Name):
             if n.func.attr in ("append", "extend", "update", "pop", "clear", "setdefault", "add", "insert", "remove", "sort"):
                 mod.add(n.func.value.id)
@@ -103,6 +116,8 @@ def sym_like(st_init, tag, modified=None):
             continue
         if isinstance(v, SDict):
             out[n] = SDict(z3.Array(f"{n}!dom{tag}", Int, Bool), z3.Array(f"{n}!val{tag}", Int, Int))
+        elif isinstance(v, SDictList):
+            out[n] = SDictList(z3.Array(f"{n}!dom{tag}", Int, Bool), z3.Array(f"{n}!elems{tag}", Int, z3.ArraySort(Int, Int)), z3.Array(f"{n}!lens{tag}", Int, Int))
         elif isinstance(v, SList):
             out[n] = SList(z3.Array(f"{n}!arr{tag}", Int, Int), z3.Int(f"{n}!len{tag}"))
         elif isinstance(v, SCounter):
@@ -134,11 +149,17 @@ def returned(vc, post_stmts, st):
 
 def verification_conditions(name, mutable_arrays=("out",)):
     """-> list of (obligation name, [assertions whose conjunction must be UNSAT])"""
-    func = real_function(name)
     contract = cg.KERNELS[name]
+    func = real_function(contract.get("function", name))
     vc = loopvc.LoopVC(func)
     pre_stmts, loops, post_stmts = vc.split()
-    if len(loops) != 1:
+    stage_only = contract.get("stage_only", False)
+    if stage_only:
+        # contract of the FIRST loop of a function with several top-level loops; the statements after it are
+        # not part of this stage (the stage's postcondition is its invariant at N, restated by contract["post"])
+        if len(loops) != contract["n_loops"]:
+            raise Unsupported(f"{name}: expected {contract['n_loops']} top-level loops, found {len(loops)}")
+    elif len(loops) != 1:
         raise Unsupported(f"{name}: expected exactly one loop, found {len(loops)}")
     loop = loops[0]
     inp, gh = contract["inputs"]()
@@ -154,7 +175,7 @@ def verification_conditions(name, mutable_arrays=("out",)):
     declared = cg.STATE_VARS.get(name)
     if declared:
         def kind(v):
-            return "dict" if isinstance(v, SDict) else "list" if isinstance(v, SList) else "counter" if isinstance(v, SCounter) else "arr" if isinstance(v, SArr) else "int"
+            return "dictlist" if isinstance(v, SDictList) else "dict" if isinstance(v, SDict) else "list" if isinstance(v, SList) else "counter" if isinstance(v, SCounter) else "arr" if isinstance(v, SArr) else "int"
 
         code_vars = [(n, kind(v)) for n, v in st0.items() if n not in inp]
         for kd in {k_ for _, k_ in declared}:
@@ -220,7 +241,8 @@ def verification_conditions(name, mutable_arrays=("out",)):
     invN = contract["inv"](inp, gh, SN, inp["N"])
     HN = [*H, *[f for _, f in invN]]
     SN = dict(SN)
-    SN["__return__"] = returned(vc, post_stmts, SN)
+    if not stage_only:
+        SN["__return__"] = returned(vc, post_stmts, SN)
     for cname, f in contract["post"](inp, gh, SN):
         out.append((f"{name}: post {cname}", [*HN, z3.Not(f)]))
     # vacuity guard handled by the bounded instance (quantified hypotheses are not decidable for sat)
